@@ -6,6 +6,7 @@ from sa.deps import Facts, names_in, pseudo
 from sa.loader import AnalysisError, FuncInfo, own_nodes
 from sa.model import is_drain_call, row_loops, rowloop_signature, u, where
 from sa.paths import BREAK, FALL, RAISE, Enumerator, path_nodes
+from sa.pattern import find_expr, find_stmt, has_expr, has_stmt, match_expr, match_stmt
 
 LOAD = 'dataflows.processors.load:load'
 
@@ -172,10 +173,9 @@ def headers_and_tables(ctx, ld):
     run.check(seen.get((False, None)) is True, 'R23', sp.where, sp.qualname, 'no duplicates -> headers untouched',
               'unique headers are renamed')
     # duplication test compares len(headers) with len(set(headers)) (case-insensitively when asked)
-    body = u(sp.node)
-    ok = 'duplication_test = len(stream.headers) != len(set(stream.headers))' in body and \
-        'lower_headers = [header.lower() for header in stream.headers]' in body and \
-        'duplication_test = len(lower_headers) != len(set(lower_headers))' in body
+    ok = has_stmt('duplication_test = len(_s.headers) != len(set(_s.headers))', sp.node) and \
+        has_stmt('_lh = [_h.lower() for _h in _s.headers]', sp.node) and \
+        has_stmt('duplication_test = len(_lh) != len(set(_lh))', sp.node)
     run.check(ok, 'R23', sp.where, sp.qualname, 'duplicates = len(h) != len(set(h)) (lower-cased when case-insensitive)',
               'the duplicate-header test is not a uniqueness test of the header names')
     init = ld.methods['__init__']
@@ -199,7 +199,7 @@ def headers_and_tables(ctx, ld):
                       init.qualname, 'CAST_TO_STRINGS: self.stringer(it)', 'the strings strategy does not stringify')
     # limit_rows etc. stored
     for a in ('strip', 'limit_rows', 'resources', 'name'):
-        run.check('self.%s = %s' % (a, a) in u(init.node), 'R23', init.where, init.qualname, 'self.%s = %s' % (a, a), 'option %s lost' % a)
+        run.check(has_stmt('self.%s = %s' % (a, a), init.node), 'R23', init.where, init.qualname, 'self.%s = %s' % (a, a), 'option %s lost' % a)
 
 
 def selection(ctx, ld):
